@@ -282,11 +282,7 @@ impl ClusterHandler for AdminCommHandler {
             // exchange to complete, then can't accept new ones.
             // `Failsafe::expire` does the actual `remove_pase` call.
             let sess = ctx.exchange().id().session(&mut state.sessions);
-            let expire_sess_id = matches!(
-                sess.get_session_mode(),
-                crate::transport::session::SessionMode::Pase { .. }
-            )
-            .then(|| sess.id());
+            let expire_sess_id = Some(sess.id());
 
             let removed_fabric = state.failsafe.expire(
                 &mut state.fabrics,
@@ -299,6 +295,15 @@ impl ClusterHandler for AdminCommHandler {
             )?;
 
             ctx.exchange().matter().transport().notify_session_removed();
+
+            #[cfg(feature = "case-resumption")]
+            if let Some(fab_idx) = removed_fabric {
+                state.resumption.remove_for_fabric(fab_idx);
+                ctx.exchange()
+                    .matter()
+                    .transport()
+                    .notify_resumption_dirty();
+            }
 
             Ok::<_, Error>(removed_fabric)
         })?;
